@@ -354,6 +354,12 @@ def c07(tier, replay=None):
               {"k": "table", "e": [["", {"k": "na"}], [" lead", {"k": "unk"}], ["é", {"k": "char", "t": "nfc", "q": 1}], ["K", {"k": "numb", "t": "1"}], ["k", {"k": "numb", "t": "2"}]]},
               {"k": "table", "e": [["é", {"k": "char", "t": "nfd spelling", "q": 1}]]},
               {"k": "list", "e": [{"k": "char", "t": "s" * 600, "q": 1}, {"k": "table", "e": [["k" * 300, {"k": "list", "e": [{"k": "char", "t": "t" * 700, "q": 1}]}]]}]}]
+    # every kind of leaf, with both quoting states, at every kind of position (scalar, list member, table member, nested):
+    # scalars travel through the columns of item_value, members through the serialised form
+    leaves = [{"k": "char", "t": "txt", "q": 1}, {"k": "char", "t": "bare", "q": 0}, {"k": "numb", "t": "1.50"}, {"k": "numb", "t": "1.50", "q": 1},
+              {"k": "numb", "t": "-2.5e3(12)", "q": 1}, {"k": "char", "t": "1.50", "q": 1}, {"k": "char", "t": "1.50", "q": 0}, {"k": "na"}, {"k": "unk"}]
+    for lf in leaves:
+        extra += [lf, {"k": "list", "e": [lf]}, {"k": "table", "e": [["Key", lf]]}, {"k": "list", "e": [{"k": "list", "e": [lf, lf]}]}, {"k": "table", "e": [["Nested", {"k": "list", "e": [lf]}], ["t", {"k": "table", "e": [["u", lf]]}]]}]
     deep = {"k": "numb", "t": "7"}
     for i in range(40):
         deep = {"k": "list", "e": [deep]} if i % 2 else {"k": "table", "e": [["d%d" % i, deep]]}
